@@ -798,6 +798,16 @@ func (u *Unit) atomBoolCall(c *ast.CallExpr, se *ast.SelectorExpr, fn *types.Fun
 		return ret(env, Value{Select(h, holder), types.Typ[types.Bool]})
 	case "Set":
 		v := u.eval(c.Args[0], env)
+		// "opt set-outside-lock=<flag field>:<lock field>": the flag is published without waiting for the lock (a holder of the lock
+		// may be blocked for as long as it likes; readers of the flag must not have to wait for it)
+		if u.Block != nil {
+			if d := strings.SplitN(u.Block.Opts["set-outside-lock"], ":", 2); len(d) == 2 {
+				if fse, ok := unparen(se.X).(*ast.SelectorExpr); ok && fse.Sel.Name == d[0] {
+					key := u.baseKey(fse.X, env) + "." + d[1]
+					u.assert(env, "perm/set-outside-lock/"+u.exprText(fse), "perm", c.Pos(), u.exprText(fse)+" is set while "+u.exprText(fse.X)+"."+d[1]+" is not held", boolTerm(env.held[key] == ""))
+				}
+			}
+		}
 		u.setHeap(env, hn, Store(h, holder, v.Term))
 		return ret(env)
 	}
